@@ -5,6 +5,7 @@ import (
 	"fmt"
 	"io"
 	"slices"
+	"sync"
 
 	"reduction.dev/reduction/dkv/kv"
 	"reduction.dev/reduction/dkv/sst"
@@ -17,6 +18,10 @@ import (
 const checkpointsFileName = "checkpoints"
 
 type CheckpointList struct {
+	// The list is used by the DB's owner (Add), by background checkpoint save
+	// tasks (Save) and by retention updates and table queries arriving from
+	// other goroutines.
+	mu                        sync.Mutex
 	checkpoints               []*Checkpoint
 	checkpointsPendingRemoval []*Checkpoint // Track removed checkpoints so they can be destroyed on Save
 }
@@ -49,10 +54,15 @@ func (cl *CheckpointList) Add(ckptID uint64, ll *sst.LevelList, w *wal.Writer, l
 		tableURIset: tableURIset,
 		LastSeqNum:  lastSeqNum,
 	}
+	cl.mu.Lock()
+	defer cl.mu.Unlock()
 	cl.checkpoints = append(cl.checkpoints, cp)
 }
 
 func (cl *CheckpointList) Save(fs storage.FileSystem) (string, error) {
+	cl.mu.Lock()
+	defer cl.mu.Unlock()
+
 	// Collect a list of checkpoint docs for serialization
 	checkpointDocs := make([]checkpointDocument, len(cl.checkpoints))
 	for i, ckpt := range cl.checkpoints {
@@ -91,20 +101,34 @@ func (cl *CheckpointList) Save(fs storage.FileSystem) (string, error) {
 }
 
 func (cl *CheckpointList) IsEmpty() bool {
+	cl.mu.Lock()
+	defer cl.mu.Unlock()
 	return len(cl.checkpoints) == 0
 }
 
 func (cl *CheckpointList) Latest() *Checkpoint {
+	cl.mu.Lock()
+	defer cl.mu.Unlock()
 	return cl.checkpoints[len(cl.checkpoints)-1]
 }
 
 // RetainOnly keeps only the checkpoints with the specified IDs in the list. Other checkpoints
 // aren't really removed until the next successful Save.
 func (cl *CheckpointList) RetainOnly(ids []uint64) {
+	cl.mu.Lock()
+	defer cl.mu.Unlock()
+
 	idsSet := ds.SetOf(ids...)
+	// A retention update is sent when a job checkpoint completes. By the time
+	// it arrives this instance may already have taken the next checkpoint, which
+	// the sender doesn't know about yet and which must not be dropped.
+	var newestRetainedID uint64
+	for _, id := range ids {
+		newestRetainedID = max(newestRetainedID, id)
+	}
 	nextCheckpoints := make([]*Checkpoint, 0, len(ids))
 	for _, cp := range cl.checkpoints {
-		if idsSet.Has(cp.ID) {
+		if idsSet.Has(cp.ID) || cp.ID > newestRetainedID {
 			nextCheckpoints = append(nextCheckpoints, cp)
 		} else {
 			cl.checkpointsPendingRemoval = append(cl.checkpointsPendingRemoval, cp)
@@ -118,6 +142,8 @@ func (cl *CheckpointList) RetainOnly(ids []uint64) {
 }
 
 func (cl *CheckpointList) IncludesTable(uri string) bool {
+	cl.mu.Lock()
+	defer cl.mu.Unlock()
 	for _, cp := range cl.checkpoints {
 		if cp.IncludesTable(uri) {
 			return true
